@@ -104,6 +104,9 @@ CAT = [
     ["oracle", "TABLESPACE index", {"tablespace": {"tablespace_name": "index", "properties": None, "type": None, "temporary": False}},
      {"tablespace": {"tablespace_name": "index", "properties": None, "type": None, "temporary": False}}],
     ["redshift", "DISTKEY(order)", {"distkey": "order"}, {"table_properties": {"distkey": "order"}}],
+    # BigQuery's own spelling of a multi-column clustering: a comma list WITHOUT parentheses
+    ["bigquery", "CLUSTER BY a, b", {"cluster_by": ["a", "b"]}, {"table_properties": {"cluster_by": ["a", "b"]}}],
+    ["bigquery", "CLUSTER BY a, b, dt", {"cluster_by": ["a", "b", "dt"]}, {"table_properties": {"cluster_by": ["a", "b", "dt"]}}],
 ]
 BODY2 = "CREATE TABLE s.t2 (a int, b varchar(10), dt date)"
 BODIES = {
